@@ -133,6 +133,9 @@ class ProjectFiles:
             matcher = matchers["reference"]
             for path in self._files(matcher):
                 l10npath = matcher.sub(matchers["l10n"], path)
+                if self.exclude and self.exclude.match(l10npath) is not None:
+                    # the localized file belongs to an excluded config
+                    continue
                 if l10npath not in known:
                     known[l10npath] = {"reference": path, "test": matchers.get("test")}
                     if "merge" in matchers:
@@ -216,6 +219,13 @@ class ProjectFiles:
             if matcher.match(path) is not None:
                 merge = None
                 l10n = matcher.sub(matchers["l10n"], path)
+                if (
+                    self.locale is not None
+                    and self.exclude
+                    and self.exclude.match(l10n) is not None
+                ):
+                    # the localized file belongs to an excluded config
+                    return
                 if "merge" in matchers:
                     merge = matcher.sub(matchers["merge"], path)
                 return l10n, path, merge, matchers.get("test")
